@@ -96,6 +96,7 @@ func C12(e *Env) {
 		bin            bool
 		yield          bool
 		chunk          int
+		buf            int64 // transfer buffer size; 0 = the unpooled copier (--buffer-size=0)
 	}
 	var rounds []round
 	for i := 0; i < e.Pick(12, 80); i++ {
@@ -103,9 +104,9 @@ func C12(e *Env) {
 		if e.Thorough && i%7 == 0 {
 			n = 64
 		}
-		rounds = append(rounds, round{n: n, procs: []int{1, 2, 4, 16}[i%4], reqs: e.Pick(40, 60), yield: i%2 == 0, chunk: []int{0, 512, 0, 4096}[i%4]})
+		rounds = append(rounds, round{n: n, procs: []int{1, 2, 4, 16}[i%4], reqs: e.Pick(40, 60), yield: i%2 == 0, chunk: []int{0, 512, 0, 4096}[i%4], buf: []int64{65536, 0, 2048, 65536, 0, 1 << 20}[i%6]})
 	}
-	rounds = append(rounds, round{n: 16, procs: 0, reqs: 40, bin: true}, round{n: 32, procs: 0, reqs: 30, bin: true})
+	rounds = append(rounds, round{n: 16, procs: 0, reqs: 40, bin: true, buf: 65536}, round{n: 32, procs: 0, reqs: 30, bin: true, buf: 0})
 	var allIv []opInterval
 	var ivMu sync.Mutex
 	var raceBlocks []string
@@ -117,10 +118,10 @@ func C12(e *Env) {
 				fatalf("C12 needs the race build of the binary")
 			}
 			var err error
-			p, err = host.SpawnBin(e.BinRace, []string{"server", "--root=" + root, "--listen-addr=127.0.0.1:0", "--allow-write", "--debug"}, host.Opt{Dir: e.Dir("logs"), Tag: "c12-bin", Race: true}, e.Dir("cwd"), true)
+			p, err = host.SpawnBin(e.BinRace, []string{"server", "--root=" + root, "--listen-addr=127.0.0.1:0", "--allow-write", "--debug", fmt.Sprintf("--buffer-size=%d", rd.buf)}, host.Opt{Dir: e.Dir("logs"), Tag: "c12-bin", Race: true}, e.Dir("cwd"), true)
 			must(err)
 		} else {
-			cfg := worker.Config{Root: root, AllowWrite: true, BufSize: 65536, GoMaxProcs: rd.procs, Log: "debug", WriteChunk: rd.chunk}
+			cfg := worker.Config{Root: root, AllowWrite: true, BufSize: rd.buf, GoMaxProcs: rd.procs, Log: "debug", WriteChunk: rd.chunk}
 			if rd.yield {
 				cfg.Faults = []spyfs.Fault{{Every: true, Kind: spyfs.FYield}}
 			}
@@ -205,7 +206,7 @@ func C12(e *Env) {
 						if res.Fail.Inconclusive {
 							run.Inconclusive(res.Fail.Error())
 						} else {
-							run.Violate("interference-"+res.Fail.Rule, res.Fail.Feature, fmt.Sprintf("[round %d: %d clients, GOMAXPROCS=%d, target=%s] client %d: %s", ri, rd.n, rd.procs, map[bool]string{true: "binary", false: "worker"}[rd.bin], id, res.Fail.Detail), wit)
+							run.Violate("interference-"+res.Fail.Rule, res.Fail.Feature, fmt.Sprintf("[round %d: %d clients, GOMAXPROCS=%d, target=%s buffer-size=%d] client %d: %s", ri, rd.n, rd.procs, map[bool]string{true: "binary", false: "worker"}[rd.bin], rd.buf, id, res.Fail.Detail), wit)
 						}
 						return
 					}
